@@ -7,7 +7,10 @@
    `@recoverable`.  A successful "e" produces a new OUTPUT INSTANCE <<job, generation>> stored on
    the job's location; a fail-stop failure wipes the location: every instance stored there becomes
    unavailable (FileToken.is_available = the file exists somewhere).  Workflow inputs are on stable
-   storage.
+   storage.  A fail-stop with PARTIAL data loss (kind "fail_sel") loses instead the outputs - every
+   generation, every copy - of a chosen set of jobs (per-job directories) and nothing else: with two
+   such failures in sequence on a fork/join DAG a recovery meets an old lost instance of a job and a
+   newer available one on the same port (Superseded).
 
    What each workflow (the original one and every recovery workflow) knows is kept per FRAME:
      port[p]     the instance of p's output sitting in this workflow's port (what a consumer reads)
